@@ -347,6 +347,10 @@ func (a *genericAuthenticator) getCacheTTL(sessionLifespan *SessionLifespan) tim
 
 func (a *genericAuthenticator) calculateCacheKey(reference string) string {
 	digest := sha256.New()
+	// the id stands for everything the result depends on, but which is not part of the endpoint
+	// definition (payload, forwarded headers and cookies, session lifespan settings)
+	digest.Write(stringx.ToBytes(a.id))
+	digest.Write([]byte{0})
 	digest.Write(a.e.Hash())
 	digest.Write(stringx.ToBytes(reference))
 
